@@ -203,7 +203,7 @@ class C20(Prop):
         seams.install(ctx)
         seams.reset_run_state(ctx)
         # one run = one server process: memoised helpers of the server module start empty (a run must not see another run's threads)
-        for _name in dir(api):
+        for _name in ([] if os.environ.get("VERIF_C20_KEEP_MODULE_STATE") else dir(api)):  # (the switch exists to test the runner's sequence fallback)
             _clear = getattr(getattr(api, _name, None), "cache_clear", None)
             if callable(_clear):
                 _clear()
